@@ -72,6 +72,9 @@ class TLCResult:
         return self.rc == 0 and self.violated is None
 
 
+import itertools
+
+_RUN_COUNTER = itertools.count()
 _REC_RE = re.compile(r'<<\s*"REC"')
 _JREC_RE = re.compile(r'^"JREC(.*)"\s*$', re.M)
 
@@ -132,7 +135,8 @@ def run_tlc(
     heap: str | None = None,
 ) -> TLCResult:
     """Run TLC on spec_dir/module.tla with spec_dir/cfg. Output goes to work/."""
-    meta = work / f"meta-{module}-{int(time.time()*1000)%100000000}"
+    tag = f"{module}-{int(time.time()*1000)%100000000}-{next(_RUN_COUNTER)}"
+    meta = work / f"meta-{tag}"
     cmd = [
         "java",
         f"-Xss{xss}",
@@ -164,7 +168,7 @@ def run_tlc(
     if env:
         e.update({k: str(v) for k, v in env.items()})
     t0 = time.time()
-    outfile = work / f"tlc-{module}-{int(t0*1000)%100000000}.out"
+    outfile = work / f"tlc-{tag}.out"
     with open(outfile, "w") as fo:
         try:
             p = subprocess.run(
